@@ -88,9 +88,8 @@ def _descs():
 
 
 NDESC = 5
-# squeeze_channel([subset of the channels]) is refused by the current code (reported); drawn as
-# a valid operation only when True
-SQUEEZE_SUBSETS = False
+# squeeze_channel([subset of the channels]) keeps the unlisted channels (fix D94)
+SQUEEZE_SUBSETS = True
 
 
 def _chan_dict(chans):
